@@ -18,6 +18,8 @@ func init() { Registry["C06"] = C06_Run }
 // The assertion is that Parse returns: a panic that escapes the call is the violation.
 
 type c06M map[string]any
+type c06Str string
+type c06Int int
 type c06In struct {
 	A int
 	B string
@@ -53,7 +55,7 @@ func c06Schema() *z.StructSchema {
 	})
 }
 
-const c06NVals = 38
+const c06NVals = 45
 
 // c06Value: the k-th entry of the dynamic-type catalogue
 func c06Value(k int) any {
@@ -146,6 +148,20 @@ func c06Value(k int) any {
 		var inner *int
 		var innerS *c06Inner
 		return map[string]any{"a": &inner, "p": &inner, "n": &innerS, "q": &innerS, "b": uint16(n), "l": []uint32{uint32(n)}}
+	case 38:
+		return map[string]c06Str{"b": c06Str(s), "a": "1"} // named element type
+	case 39:
+		return map[c06Str]any{"a": n, "b": s} // named key type
+	case 40:
+		return map[string]c06Int{"a": c06Int(n)}
+	case 41:
+		return map[c06Str]c06Str{"b": "x"}
+	case 42:
+		return map[string]any{"n": map[c06Str]any{"x": n}, "q": map[string]c06Int{"x": 1}, "s": []any{map[string]c06Str{"x": "1"}}, "b": c06Str(s), "a": c06Int(n)}
+	case 43:
+		return map[string]error{"a": nil} // named interface element type
+	case 44:
+		return map[string]interface{ String() string }{"a": nil}
 	case 33:
 		return map[string]any{"a": uint8(n), "b": []byte(s), "l": [1]int{n}, "p": uint64(n), "n": map[string]int{"x": n}}
 	}
